@@ -199,6 +199,8 @@ class Evaluator:
                 for i, f_ in enumerate(flds):
                     owners.setdefault(f_, []).append(i)
             other = {f_ for cname, cis in self.prog.class_index.items() if cname not in classes for ci in cis for f_ in list(ci.fields) + list(ci.methods)}
+            # (names that are attributes of the builtin containers / arrays are never read as fields: d.values(), xs.index(..), a.shape, ...)
+            other |= {n_ for t_ in (dict, list, tuple, str, set, int, float) for n_ in dir(t_)} | {"shape", "dtype", "T", "at", "size", "ndim", "real", "imag", "args", "kwargs", "key", "value", "name"}
             self._nt = (classes, {f_: ix[0] for f_, ix in owners.items() if len(ix) == 1 and f_ not in other})
         return self._nt
 
@@ -401,6 +403,8 @@ def mk_fam(it, body):
     if is_t(it, "enumerate") and not contains(body, ("enumidx", it[1])) and not any(is_t(x, "closure") for x in subterms(body)):
         it = it[1]
     it = norm_it(it)
+    if is_t(it, "enumerate") and not contains(body, ("enumidx", it[1])) and not any(is_t(x, "closure") for x in subterms(body)):
+        it = it[1]  # (the counter of the family this one ranges over is not used either)
     if is_t(it, "phi"):
         # a comprehension over (A if c else B) is the join of the comprehensions over A and over B
         return mk_phi(it[1], mk_fam(it[2], resolve(body, it[1], True)), mk_fam(it[3], resolve(body, it[1], False)))
@@ -707,6 +711,16 @@ def mk_attr(ev: Evaluator, base, name):
         return mk_proj(base, ev.namedtuples()[1][name])  # x.field of a NamedTuple is x[index]
     if is_t(base, "tuple") and base in _NT_CLASS and name in _NT_CLASS[base][1]:
         return mk_proj(base, _NT_CLASS[base][1].index(name))
+    if is_t(base, "tuple") and base in _NT_CLASS:
+        # a method of a NamedTuple value taken as a value (`slot.fill`): the method partially applied to that value
+        cis_ = ev.prog.class_index.get(_NT_CLASS[base][0])
+        if cis_ and name in cis_[0].methods and not _is_static(cis_[0].methods[name]):
+            memo_ = ev.__dict__.setdefault("_nt_method_clo", {})
+            k_ = (cis_[0].qual, name)
+            if k_ not in memo_:
+                memo_[k_] = next(ev._ids)
+                ev.closures[memo_[k_]] = Closure(cis_[0].methods[name], {}, cis_[0].module, cis_[0], f"{cis_[0].name}.{name}")
+            return ("partial", ("closure", memo_[k_]), (base,), ())
     if is_t(base, "ctor"):
         cis = ev.prog.class_index.get(base[1].split(":")[-1], [])
         for ci in cis:
@@ -1434,6 +1448,23 @@ class _Ctx:
                     self.assign(e.generators[0].target, item, cenv)
                     out.append(self.expr(e.elt, cenv))
                 return ("list", tuple(out))
+        if len(e.generators) == 1 and e.generators[0].ifs:
+            lit = _iterable(self.expr(e.generators[0].iter, env))
+            if (is_t(lit, "tuple") or is_t(lit, "list")) and not _has_star(lit) and 0 < len(lit[1]) <= 3:
+                # a FILTERED comprehension over a short literal tuple: the join, over the filter outcomes, of the literal lists of the kept instances
+                insts = []
+                for item in lit[1]:
+                    cenv = dict(env)
+                    self.assign(e.generators[0].target, item, cenv)
+                    tests_ = [self.expr(c_, cenv) for c_ in e.generators[0].ifs]
+                    insts.append((tests_[0] if len(tests_) == 1 else ("bool", "and", tuple(tests_)), self.expr(e.elt, cenv)))
+
+                def _build(i_, kept_):
+                    if i_ == len(insts):
+                        return ("list", tuple(kept_))
+                    self.py_tests.add(canon_test(insts[i_][0]))
+                    return mk_phi(insts[i_][0], _build(i_ + 1, kept_ + [insts[i_][1]]), _build(i_ + 1, kept_))
+                return _build(0, [])
         cenv = dict(env)
         it = self.comp_iter(e.generators, cenv)
         body = self.expr(e.elt, cenv)
@@ -1768,6 +1799,23 @@ class _Ctx:
             # jax.util.split_list(xs, [n]) is (xs[:n], xs[n:])
             n_ = args[1][1][0]
             return mk_tuple((("index", args[0], ("sliceobj", C(None), n_, C(None))), ("index", args[0], ("sliceobj", n_, C(None), C(None)))))
+        # reduce(f, xs) without an initial value over a literal sequence (or a join of such): the left fold written out; a single element is itself
+        if name in ("functools.reduce", "reduce") and len(args) == 2 and not kwargs:
+            def _fold(xs_):
+                if is_t(xs_, "phi"):
+                    a_, b_ = _fold(xs_[2]), _fold(xs_[3])
+                    return mk_phi(xs_[1], a_, b_) if a_ is not None and b_ is not None else None
+                if (is_t(xs_, "list") or is_t(xs_, "tuple")) and not _has_star(xs_):
+                    if not xs_[1]:
+                        return ("opaque", "reduce-of-empty-sequence", ())  # raises TypeError
+                    acc_ = xs_[1][0]
+                    for x_ in xs_[1][1:]:
+                        acc_ = self.call_value(args[0], [acc_, x_], {})
+                    return acc_
+                return None
+            r_ = _fold(args[1])
+            if r_ is not None:
+                return r_
         # itertools.starmap(f, xs) is (f(*x) for x in xs)
         if name == "itertools.starmap" and len(args) == 2 and not kwargs:
             it_ = _iterable(args[1])
@@ -1978,6 +2026,8 @@ class _Ctx:
         ev.scans[sid] = ScanInfo(init, carry_in, cout, y, xs, fn, kwargs.get("length"))
         if n is not None:
             final = mk_tuple(("scanfinal", sid, i) for i in range(n))
+            if init in _NT_CLASS:
+                _NT_CLASS[final] = _NT_CLASS[init]
         else:
             final = ("scanfinal", sid, None)
         return mk_tuple([final, ("call", G("jax.numpy.flip"), (("stack", y),), (("axis", C(0)),)) if rev else ("stack", y)])
